@@ -29,6 +29,7 @@ func checkC11(p *Program, r *Report) {
 	sums := buildTypeSummaries(m)
 	va := buildEvalAnalysis(m)
 	callFollowsFlag(p, r, m, "C11.R7")
+	c10ContainerConverters(p, r, m, "C11.R8")
 	c11Args(p, r, m, sums, va)
 	c11Results(p, r, m)
 	c11Env(p, r)
